@@ -116,7 +116,7 @@ struct Written {
 }
 
 #[allow(clippy::too_many_arguments)]
-async fn run_program(spec: &RepoSpec, dir: &Path, r: &mut Rng, p: &mut Prog, publish: Publish, inadequate_final_keys: bool, skip_resign_undersigned: bool) -> Result<Written, String> {
+async fn run_program(spec: &RepoSpec, dir: &Path, r: &mut Rng, p: &mut Prog, publish: Publish, final_keys: &[usize], skip_resign_undersigned: bool) -> Result<Written, String> {
     let root_bytes = render(&sign_with(&root_signed(1, spec.consistent, FAR, &spec.keys), &spec.keys.root.keys), Style::Pretty);
     let root_path = dir.join("root.json");
     std::fs::write(&root_path, &root_bytes).unwrap();
@@ -152,8 +152,7 @@ async fn run_program(spec: &RepoSpec, dir: &Path, r: &mut Rng, p: &mut Prog, pub
         }
     }
     ed.snapshot_version(nz(spec.snap_version)).snapshot_expires(far()).timestamp_version(nz(spec.ts_version)).timestamp_expires(far());
-    let final_keys: Vec<usize> = if inadequate_final_keys { vec![0, 1, 3] } else { vec![0, 1, 2, 3] };
-    let signed = ed.sign(&sources(&final_keys)).await.map_err(|e| format!("sign(keys {final_keys:?}): {}", client::full_error(&e)))?;
+    let signed = ed.sign(&sources(final_keys)).await.map_err(|e| format!("sign(keys {final_keys:?}): {}", client::full_error(&e)))?;
     p.op(format!("sign(keys {final_keys:?}) -> ok"));
     let md = dir.join("written/metadata");
     let tg = dir.join("written/targets");
@@ -345,12 +344,41 @@ fn run_case(w: &mut Worker, i: u64) -> CaseOut {
         d.signers = Some(d.keys.clone());
     }
     let skip_resign = unmeetable && r.bool();
-    let inadequate_final = r.chance(1, 12);
+    // an inadequate key set in disguise: one key source listed as often as the threshold demands
+    let mut dup_signers = false;
+    if !unmeetable && r.chance(1, 5) {
+        fn first_multi(d: &mut DelegSpec) -> bool {
+            if d.threshold >= 2 {
+                d.signers = Some(vec![d.keys[0]; d.threshold as usize]);
+                return true;
+            }
+            d.children.iter_mut().any(first_multi)
+        }
+        dup_signers = spec.delegations.iter_mut().any(first_multi);
+    }
+    let mut inadequate_final = r.chance(1, 12);
+    // a two-key snapshot role with threshold 2, signed with both keys or with one key listed twice
+    let snap2 = r.chance(1, 6);
+    let snap_dup = snap2 && r.bool();
+    if snap2 {
+        spec.keys.snapshot = RoleKeys { keys: vec![2, 17], threshold: 2 };
+        inadequate_final = false;
+    }
     let publish = if r.bool() { Publish::Copy } else { Publish::Link };
     let dir = w.case_dir();
     let wd = client::watchdog(w.cfg.tier);
     let mut p = Prog { log: vec![], refused: None };
-    let res = w.rt.block_on(async { tokio::time::timeout(wd * 3, run_program(&spec, &dir, &mut r, &mut p, publish, inadequate_final, skip_resign)).await });
+    let final_keys: Vec<usize> = if snap_dup {
+        vec![0, 1, 2, 2, 3]
+    } else if snap2 {
+        vec![0, 1, 2, 17, 3]
+    } else if inadequate_final {
+        vec![0, 1, 3]
+    } else {
+        vec![0, 1, 2, 3]
+    };
+    let inadequate_final = inadequate_final || snap_dup;
+    let res = w.rt.block_on(async { tokio::time::timeout(wd * 3, run_program(&spec, &dir, &mut r, &mut p, publish, &final_keys, skip_resign)).await });
     out.evals = 1;
     let nd = all_delegs(&spec).len();
     let mut notes: Vec<String> = Vec::new();
@@ -363,6 +391,8 @@ fn run_case(w: &mut Worker, i: u64) -> CaseOut {
                 out.h("editor-refused:inadequate-final-keys");
             } else if unmeetable {
                 out.h("editor-refused:unmeetable-threshold");
+            } else if dup_signers {
+                out.h("editor-refused:one-key-listed-repeatedly");
             } else {
                 out.h("editor-refused:other");
                 out.obs(format!("editor refused a valid program: {}", e.chars().take(80).collect::<String>()));
@@ -381,7 +411,13 @@ fn run_case(w: &mut Worker, i: u64) -> CaseOut {
             match lr {
                 Err(e) if e == "watchdog" => out.inconc("watchdog"),
                 Err(e) => {
-                    let cause = if unmeetable { "delegated-threshold" } else { "other" };
+                    let cause = if unmeetable {
+                        "delegated-threshold"
+                    } else if dup_signers {
+                        "one-key-listed-repeatedly"
+                    } else {
+                        "other"
+                    };
                     out.viol(format!("unloadable:cause={cause}"), format!("the editor reported success but the written repository does not load: {e}"));
                 }
                 Ok(repo) => {
@@ -416,7 +452,7 @@ fn run_case(w: &mut Worker, i: u64) -> CaseOut {
                     }
                     // cross-party flow on one depth-1 role
                     if let Some(d) = spec.delegations.first() {
-                        if !unmeetable {
+                        if !unmeetable && !dup_signers {
                             cross_party(w, &spec, d, &wr, repo, &dir, &mut r, &mut out, &mut notes);
                         }
                     }
@@ -540,7 +576,7 @@ fn cross_party(w: &mut Worker, spec: &RepoSpec, d: &DelegSpec, wr: &Written, rep
         ed.targets_version(nz(spec.tg_version + 1)).map_err(|e| e.to_string())?;
         ed.targets_expires(far()).map_err(|e| e.to_string())?;
         ed.snapshot_version(nz(spec.snap_version + 1)).snapshot_expires(far()).timestamp_version(nz(spec.ts_version + 1)).timestamp_expires(far());
-        let s = ed.sign(&sources(&[0, 1, 2, 3])).await.map_err(|e| format!("sign: {}", client::full_error(&e)))?;
+        let s = ed.sign(&sources(&[0, 1, 2, 17, 3])).await.map_err(|e| format!("sign: {}", client::full_error(&e)))?;
         s.write(&updated).await.map_err(|e| format!("write: {}", client::full_error(&e)))?;
         Ok(())
     });
@@ -600,6 +636,7 @@ pub fn run(cfg: &Cfg) -> i32 {
         "publish=Link".into(),
         "delegated-larger-than-targets-json".into(),
         "editor-refused:inadequate-final-keys".into(),
+        "editor-refused:one-key-listed-repeatedly".into(),
     ];
     for k in ["genuine", "under-signed", "wrong-keys", "duplicate-signatures", "older"] {
         required.push(format!("cross-party:{k}"));
